@@ -101,6 +101,8 @@ mod stdrc {
     }
     include!("interp.rs");
 }
+mod rawadopt;
+
 fn main() {
     let args: Vec<String> = std::env::args().collect();
     std::panic::set_hook(Box::new(|_| {}));
@@ -111,6 +113,23 @@ fn main() {
         "ring" => cactus::ring_main(&args),
         "tree" => cactus::tree_main(&args),
         "fan" => cactus::fan_main(&args),
+        "rawadopt" => {
+            // C12: the raw-pointer API on adopted objects, for payloads of several alignments
+            let got = rawadopt::run();
+            let mut want = Vec::new();
+            for n in ["zst", "u8", "u64", "u128", "align16", "align64", "u16x5"] {
+                want.extend(rawadopt::expected(n));
+            }
+            let mut bad = 0;
+            for (i, w) in want.iter().enumerate() {
+                let g = got.get(i).map(|s| s.as_str()).unwrap_or("<missing>");
+                if g != w {
+                    bad += 1;
+                    println!("RAWDIFF got=[{}] want=[{}]", g, w);
+                }
+            }
+            println!("RAWADOPT lines={} differences={}", got.len(), bad);
+        }
         "glue" => {
             // the delegating API surface on cactusref and on std::rc, side by side
             let a = cactus::glue();
